@@ -45,9 +45,9 @@ use rodbus::{AddressRange, AppDecodeLevel, DecodeLevel, ExceptionCode, FrameDeco
 use crate::util::{hex, unhex};
 use crate::wire::{settle, Wire};
 
-type Log = Arc<Mutex<Vec<String>>>;
+pub type Log = Arc<Mutex<Vec<String>>>;
 
-struct Handler {
+pub struct Handler {
     unit: u8,
     m: u64,
     c: u64,
@@ -259,7 +259,7 @@ fn tuples(s: &str) -> Vec<Vec<u64>> {
     s.split(',').map(|t| t.split('.').map(|x| x.parse::<u64>().expect("number")).collect()).collect()
 }
 
-fn parse_unit(s: &str, log: &Log) -> (u8, Handler) {
+pub fn parse_unit(s: &str, log: &Log) -> (u8, Handler) {
     let f: Vec<&str> = s.split(':').collect();
     assert!(f.len() == 9, "unit needs 9 fields: {s}");
     let t3 = |s: &str| -> Vec<(u8, u16, u8)> { tuples(s).iter().map(|t| (t[0] as u8, t[1] as u16, t[2] as u8)).collect() };
@@ -281,8 +281,21 @@ fn parse_unit(s: &str, log: &Log) -> (u8, Handler) {
     )
 }
 
+pub fn parse_units(field: &str, log: &Log) -> ServerHandlerMap<Handler> {
+    let mut map: ServerHandlerMap<Handler> = ServerHandlerMap::new();
+    if field != "-" {
+        // inserted in reverse, so that the order the session task visits them in (BTreeMap: ascending
+        // unit id) differs from the insertion order
+        for u in field.split(';').rev() {
+            let (id, h) = parse_unit(u, log);
+            map.add(UnitId::new(id), h.wrap());
+        }
+    }
+    map
+}
+
 /// merge ascending runs of single-address read entries: rc.1.5, rc.1.6 -> rc.1.5-6
-fn compress(log: &[String]) -> Vec<String> {
+pub fn compress(log: &[String]) -> Vec<String> {
     let mut out: Vec<String> = Vec::new();
     let mut run: Option<(String, u64, u64)> = None; // prefix "rc.1", first, last
     let flush = |run: &mut Option<(String, u64, u64)>, out: &mut Vec<String>| {
@@ -331,15 +344,7 @@ fn run_case(line: &str, decode: DecodeLevel) -> String {
         x => panic!("bad framing {x}"),
     };
     let log: Log = Arc::new(Mutex::new(Vec::new()));
-    let mut map: ServerHandlerMap<Handler> = ServerHandlerMap::new();
-    if f[1] != "-" {
-        // inserted in reverse, so that the order the session task visits them in (BTreeMap: ascending
-        // unit id) differs from the insertion order
-        for u in f[1].split(';').rev() {
-            let (id, h) = parse_unit(u, &log);
-            map.add(UnitId::new(id), h.wrap());
-        }
-    }
+    let map = parse_units(f[1], &log);
     let auth: Option<(Arc<dyn AuthorizationHandler>, String)> = if f[2] == "none" {
         None
     } else {
